@@ -1,0 +1,11 @@
+//go:build verif
+
+package db
+
+// Contracts for property C12 (helper in package db). Comment-only; read by /verif/engine.
+
+//@ props C12
+
+// Authenticator() builds a new authenticator over the database's metadata store and metadata keys.
+//@ func DatabaseContext.Authenticator
+//@   ensures[metakeys] result != nil && (context.MetadataKeys != nil ==> result.MetaKeys == context.MetadataKeys)
